@@ -94,7 +94,11 @@ class Report:
         counts = {}
         for o in self.obs:
             counts[o['rule']] = counts.get(o['rule'], 0) + 1
+        base = _baseline().get(self.pid, {}) if self.pid else {}
         for r, fl in self.floors.items():
+            # the hand-confirmed floor, and 70% of the instance count recorded for the reference tree (sa/instance_baseline.json, written by
+            # bin/mkbaseline): a sub-rule that silently stops producing obligations must not pass as "holds"
+            fl = max(fl, int(0.7 * base.get(r, 0)))
             if counts.get(r, 0) < fl:
                 self.obs.append({'rule': r, 'key': r + ':liveness', 'verdict': 'undecided',
                                  'what': 'rule matched %d instances, hand-confirmed floor is %d (anchor vanished or pattern no longer recognised)' % (counts.get(r, 0), fl),
@@ -181,6 +185,22 @@ class Report:
         if und:
             return 2
         return 0
+
+
+_BASE = None
+
+
+def _baseline():
+    global _BASE
+    if _BASE is None:
+        import json
+        p = os.path.join(os.path.dirname(os.path.abspath(__file__)), 'instance_baseline.json')
+        try:
+            with open(p) as f:
+                _BASE = json.load(f)
+        except (OSError, ValueError):
+            _BASE = {}
+    return _BASE
 
 
 def reissue(rep, rule, sub, why='', keep=None, prefix_rule=True):
